@@ -22,5 +22,5 @@ func (w *WeakestCriteriaOrderingResolver) Spec_OrderCriteria(
 	_ *model.BiasProps,
 	listener *model.BiasListener,
 ) *model.Criteria {
-	return (*listener).RankCriteriaAscending(params).Criteria()
+	return (*listener).RankCriteriaAscending(params).Spec_Criteria()
 }
